@@ -895,7 +895,10 @@ func c01r6(c *core.Ctx) {
 							if f2 := m.FieldOf(s2); f2 == nil || m.FieldKey(f2) != ptrKey || m.ExprString(s2.X) != base {
 								continue
 							}
-							return derivedFrom(m, f, as.Rhs[j], base+"."+bp[0], 0)
+							if derivedFrom(m, f, as.Rhs[j], base+"."+bp[0], 0) {
+								return true
+							}
+							return pairedBuffer(m, f, l, as.Rhs[j])
 						}
 						return false
 					}
@@ -928,7 +931,7 @@ func c01r6(c *core.Ctx) {
 					return true
 				}
 				subject := fmt.Sprintf("%s: %s{...}", f.Name, owner)
-				if ptrV != nil && derivedFrom(m, f, ptrV, m.ExprString(bufV), 0) {
+				if ptrV != nil && pairedBuffer(m, f, bufV, ptrV) {
 					c.OK("C01/R6", subject, c.At(x.Pos()), "constructor derives the raw pointer from the buffer it stores")
 					return true
 				}
@@ -1052,18 +1055,15 @@ func c01r7(c *core.Ctx) {
 			}
 			node := m.ExprString(call.Args[0])
 			subject := fmt.Sprintf("%s: %s(%s)", f.Name, cal.Name, node)
-			// must sit in the else branch of `if id, ok := node.GetArchetype(); ok`
+			// must be dominated by the negative outcome of `id, ok := node.GetArchetype()` for the same node
 			okShape := false
+			okVar := ""
 			core.InspectNoLits(f.Body, func(x ast.Node) bool {
-				is, ok := x.(*ast.IfStmt)
-				if !ok || is.Else == nil || !(is.Else.Pos() <= call.Pos() && call.End() <= is.Else.End()) {
+				as, ok := x.(*ast.AssignStmt)
+				if !ok || len(as.Lhs) != 2 || len(as.Rhs) != 1 {
 					return true
 				}
-				init, ok := is.Init.(*ast.AssignStmt)
-				if !ok || len(init.Lhs) != 2 || len(init.Rhs) != 1 {
-					return true
-				}
-				ic, ok := ast.Unparen(init.Rhs[0]).(*ast.CallExpr)
+				ic, ok := ast.Unparen(as.Rhs[0]).(*ast.CallExpr)
 				if !ok {
 					return true
 				}
@@ -1074,11 +1074,26 @@ func c01r7(c *core.Ctx) {
 				if k2, gcal, _ := m.Callee(ic); k2 != core.CallStatic || gcal.Recv != "node" || gcal.Sig.Results().Len() != 2 {
 					return true
 				}
-				if m.ExprString(is.Cond) == m.ExprString(init.Lhs[1]) {
-					okShape = true
-				}
+				okVar = m.ExprString(as.Lhs[1])
 				return true
 			})
+			if okVar != "" {
+				type unit struct{}
+				dominated := true
+				seen := false
+				ps := &core.PS[unit]{M: m, F: f,
+					Node: func(s unit, n ast.Node, cond bool, facts core.Facts) unit {
+						if n == ast.Node(call) {
+							seen = true
+							if v, known := facts["var:"+okVar]; !known || v {
+								dominated = false
+							}
+						}
+						return s
+					}}
+				ps.Solve()
+				okShape = seen && dominated
+			}
 			if okShape {
 				c.OK("C01/R7", subject, c.At(call.Pos()), "archetype created only on the branch where the graph node reports none")
 			} else {
